@@ -67,6 +67,26 @@ def r1_retransmission(ctx, F):
                                                            'Iterator::filter_map', 'Iterator::take_while',
                                                            'Iterator::skip_while', 'Iterator::step_by')]
     oks = False
+    if not sends:
+        # the commands may be appended in bulk: `o.0.extend(pending.iter().map(|..| Command::Send(dst, Deliver(..))))`
+        # - in normal form (A12) a loop that yields one Command::Send per entry into what `extend` receives
+        class _Site:
+            pass
+        for y in ot.calls_to('desugar::yield'):
+            if y.bb not in blocks:
+                continue
+            from taint import origin_vals as _ov
+            evs = _ov(ot, y.args[1]) if y.args[1].get('k') in ('copy', 'move') else {ot.val(y.args[1])}
+            if evs and all(ev.kind == 'agg' and ev.key[2] == 'Send' and len(ev.key[3]) == 2 for ev in evs):
+                agg_st = [st_ for (i_, si_, st_) in ot.assigns(lambda st_: st_['rv']['k'] == 'agg' and
+                                                             st_['rv'].get('variant') == 'Send') if i_ == y.bb or
+                          ot.dominates(i_, y.bb)]
+                ext = [c for c in ot.calls if c.bb in blocks and c.is_('Extend::extend', 'Vec::extend') and
+                       noref(ot.trace(ot.val(c.args[0]), ('DerefMut::deref_mut',))).fields()[-1:] == ('.0',)]
+                if len(agg_st) == 1 and ext:
+                    s0 = _Site()
+                    s0.bb, s0.args = y.bb, [None, agg_st[-1]['rv']['ops'][0], agg_st[-1]['rv']['ops'][1]]
+                    sends.append(s0)
     if len(sends) == 1:
         # inside a loop over msgs_pending_ack, unconditional within the iteration
         s_ = sends[0]
